@@ -125,7 +125,8 @@ class Builder:
         inc = ["-I" + prof] + self.inc_flags()
         srcs = ["dag_recorder.c", "dag_recorder_no_inl.c", "chronological.c", "dr_dump.c", "gen_stat.c", "gen_dot.c",
                 "gen_gpl.c", "gen_text.c", "read_dag.c", "options.c", "interpolate_counters.c", "papi_counters.c"]
-        jobs = [(["gcc", "-c"] + vflags + ["-D_GNU_SOURCE", "-DHAVE_CONFIG_H"] + inc + [os.path.join(prof, x), "-o", os.path.join(d, x[:-2] + ".o")],
+        # -DMYTH_VERIF: the recorder's time stamp read goes through the clock hook (dr_start_/dr_stop_ live in the archive)
+        jobs = [(["gcc", "-c"] + vflags + ["-D_GNU_SOURCE", "-DHAVE_CONFIG_H", "-DMYTH_VERIF"] + inc + [os.path.join(prof, x), "-o", os.path.join(d, x[:-2] + ".o")],
                  os.path.join(d, x[:-2] + ".o")) for x in srcs]
         rto = os.path.join(d, "myth_verif_rt.o")
         jobs.append((["gcc", "-c"] + vflags + ["-D_GNU_SOURCE", "-DMYTH_VERIF"] + inc + [os.path.join(VERIF, "rt", "myth_verif_rt.c"), "-o", rto], rto))
@@ -146,7 +147,7 @@ class Builder:
         info = {"dir": d, "archive": ar, "variant": variant, "vflags": vflags, "inc": inc, "rt": rto, "hk": hko}
         exe = os.path.join(d, "dag2any")
         cmd = ["gcc"] + vflags + ["-D_GNU_SOURCE", "-DHAVE_CONFIG_H", "-DDAG_RECORDER=2", "-I" + os.path.join(prof, "dag2any")] + inc + \
-              [os.path.join(prof, "dag2any", "dag2any.c"), ar, "-lsqlite3", "-lpthread", "-o", exe]
+              [os.path.join(prof, "dag2any", "dag2any.c"), ar, rto, "-lsqlite3", "-lpthread", "-ldl", "-lrt", "-o", exe]
         r = sh(cmd)
         if r.returncode != 0:
             raise HarnessError("dag2any build failed: %s\n%s" % (" ".join(cmd), r.stdout[-3000:]))
